@@ -155,3 +155,67 @@ def guards_of(fn, bb):
         if len(hits) >= 1 and len(hits) < len(info['edges']):
             out.append((info['cond'], '|'.join(hits)))
     return out
+
+
+IDENTITY_BOOL = ('likely', 'unlikely', 'black_box', 'identity')
+
+
+def _dominating_edges(fn, bb):
+    """[(switch_bb, label)] for switches that dominate bb through exactly one group of edges"""
+    cfg = fn.cfg
+    dom = cfg.dom()
+    out = []
+    doms = [d for d in dom.get(bb, ()) if d != bb and fn.blocks[d]['t']['k'] == 'switch']
+    doms.sort(key=lambda d: len(dom[d]))
+    for d in doms:
+        info = switch_info(fn, d)
+        hits = []
+        for lab, tgt in info['edges']:
+            if tgt == bb or tgt in dom.get(bb, ()):
+                if all(p == d or tgt in dom.get(p, ()) for p in cfg.pred[tgt]):
+                    hits.append(lab)
+        if 1 <= len(hits) < len(info['edges']):
+            out.append((d, '|'.join(hits), info))
+    return out
+
+
+def bool_facts(fn, bb, _depth=0):
+    """atomic facts (cond tree, label) known to hold on entry to bb.  Short-circuit `a && b` / `a || b`
+    lowering is undone: `phi(false, X) == true` implies X and everything that guarded X's evaluation."""
+    out = []
+    if _depth > 4:
+        return out
+    P = prov.prov_of(fn)
+    for sw, label, info in _dominating_edges(fn, bb):
+        out.append((info['cond'], label))
+        if info['kind'] != 'bool' or label not in ('true', 'false'):
+            continue
+        # chase the switched operand through identity wrappers to a local with several definitions
+        op = fn.blocks[sw]['t']['discr']
+        at_bb, at_idx = sw, len(fn.blocks[sw]['s'])
+        for _ in range(4):
+            if op['k'] not in ('copy', 'move') or 'proj' in op['p']:
+                break
+            defs = P.reaching(op['p']['l'], at_bb, at_idx)
+            if len(defs) == 1 and defs[0].kind == 'call' and defs[0].data['func'].get('name') in IDENTITY_BOOL:
+                op = defs[0].data['args'][0]
+                at_bb, at_idx = defs[0].bb, defs[0].idx
+                continue
+            if len(defs) == 1 and defs[0].kind == 'assign' and defs[0].data['rv']['k'] == 'use':
+                op = defs[0].data['rv']['op']
+                at_bb, at_idx = defs[0].bb, defs[0].idx
+                continue
+            if len(defs) >= 2:
+                want_const = 'false' if label == 'true' else 'true'
+                live = []
+                for d in defs:
+                    v = P.def_value(d)
+                    if v[0] == 'const' and v[1].get('val') == want_const:
+                        continue
+                    live.append((d, v))
+                if len(live) < len(defs):
+                    for d, v in live:
+                        out.append((v, label))
+                        out.extend(bool_facts(fn, d.bb, _depth + 1))
+            break
+    return out
